@@ -390,6 +390,28 @@ def _scripts(tier, seed, scale=1):
     words = ["0.5", "-2", "3e38", "-3e38", "1e39", "-4e38", "1e38", "3.4028235e38", "3.4028236e38", "1e300", "-1e300", "inf", "-inf", "nan", "1e-50", "0x1p127",
              "0x1p128", "abc", "x1", "16777217", "340282346638528859811704183484516925440", "340282356779733661637539395458142568448", "1e4000"]
     out += _chunks("fpoint:text", [_fpoint_text_op(w) for w in words], 12)
+    # ---- the target code 'l' (long), NULL sources, the native-type wrappers, the iterator's skip / no-value branches
+    ops = []
+    for s_ in list(INTS) + list(FLTS):
+        if s_ in INTS:
+            vals = ["%d" % v for v in _near([INTS[s_][0], INTS[s_][1], 0, 2 ** 31, 2 ** 63 - 1, 2 ** 63], INTS[s_][0], INTS[s_][1], 1)]
+        else:
+            vals = [fhex(s_, Fraction(3)), fhex(s_, Fraction(-1, 2))]
+        for op in ("val", "vval", "consume", "argv"):
+            ops += ["c %s %s l %s" % (op, s_, v) for v in (vals if (thorough or op == "val") else vals[::3])]
+    out += _chunks("long:val", ops, 16)
+    ops = []
+    for x in _numerals("x"):
+        ops += ["c text %s l %s" % (fn, gen.hexs(x.encode("utf-8", "surrogateescape"))) for fn in ("number", "string")]
+    out += _chunks("long:text", ops if thorough else ops[::3], 12)
+    out += _chunks("null", ["c null %s %s" % (s_, t_) for s_ in ALL for t_ in ALL], 16)
+    for t_ in "bixyut":
+        nums = _numerals(t_)
+        sel = nums if thorough else nums[::3]
+        out += _chunks("num:cnat:%s" % t_, ["c text cnat %s %s" % (t_, gen.hexs(x.encode("utf-8", "surrogateescape"))) for x in sel], 10)
+    ops = ["c skip %s %s" % (s_, "5" if s_ in INTS else fhex(s_, Fraction(5))) for s_ in ALL]
+    ops += ["c consume-none %s" % t_ for t_ in list(ALL) + ["l"]]
+    out += _chunks("iter", ops, 13)
     # ---- stream 3: random
     r = gen.rng(id, tier, seed, "random")
     nrand = (2000 if not thorough else 60000) * scale
